@@ -14,6 +14,7 @@ EXPLANATION = (
     "stakes.unlock_old(new_height / STAKE_EPOCH) after the height increment on every path. R5 epoch filters: unlock_old retains e_post_end >= epoch; votes / total_votes "
     "filter e_start <= epoch < e_post_end (∧ pubkey == key) and sum syms_staked. R6 new stakes are added, all of them, only after create_next_state succeeded."
     " R1/R2 read the roles (doc, epoch, coin) of stake_is_consistent off its call site (parameter order is a spelling); R5 accepts `.sum()` or a fold with an addition step; R6 accepts the per-stake step as a `for` loop or as a for_each closure."
+    " Shared: C07.R6 (every registered stake gets its leaf in the committed tree, none skipped) and C07.R1 (stakes_hash is that tree's root)."
 )
 NOT_DECIDED = ["that a genuinely expired stake's coin is spendable again over a whole history (follows from R3+R4+R5, not separately shown)",
                "the legacy-window exemptions contradict the property for historical heights by design; the rules confine them, they do not remove them"]
@@ -386,4 +387,12 @@ def r6_stakes_after_success(ctx):
     r.check(len(ins) == 1 and sig(ins[0][1]) == "HashMap::insert($1.stakes, $2, $3)", "add_stake/def", "add_stake = stakes.insert(txhash, doc)", "add_stake does %s" % [sig(i[1]) for i in ins])
 
 
-RULES = [r1_consistency, r2_registration, r3_lock_gate, r4_expiry, r5_epoch_filters, r6_stakes_after_success]
+def shared(ctx):
+    """'the stake commitment in the header reflects exactly the registered, unexpired stakes': the header's stakes_hash is the root of the tree pre_tip911 builds —
+    one leaf per registered stake, none skipped (C07.R6) — and is the header field C07.R1 says it is"""
+    from rules.engine import core
+    from rules.props import c07
+    core.import_rules(ctx, [c07.r6_stake_commitment, c07.r1_header_map], "X07")
+
+
+RULES = [r1_consistency, r2_registration, r3_lock_gate, r4_expiry, r5_epoch_filters, r6_stakes_after_success, shared]
